@@ -105,6 +105,10 @@ def p1_programs():
         out.append(fn("exact", [], [T(rx), A]))
     for f in ("min_length", "max_length"):
         out += [fn(f, [], [A, T(2)]), fn(f, [], [B, T(1)]), fn(f, [], [A, T(0)]), fn(f, [], [fn("concat", [], [A, B]), T(3)])]
+    out += [fn("any"), fn("any", [], [fn("headers")]), fn("any", [], [fn("variables")]), fn("any", [], [T("abc")]), fn("any", [], [fn("headers"), T("abc")]),
+            fn("any", [], [fn("headers"), T("10")]), fn("any", [], [fn("variables"), T("abc")]), fn("any", [], [fn("headers"), B])]
+    out += [["==", fn("count_headers"), T(3)], ["==", fn("count_headers_in_line"), T(3)], ["==", fn("count_headers_in_line"), fn("count_headers")],
+            fn("above", [], [fn("count_headers_in_line"), fn("count_headers")]), fn("below", [], [fn("count_headers_in_line"), T(3)])]
     out += [fn("all", [], [A, B]), fn("missing", [], [A, B]), fn("all", [], [A, B, ABSENT]), fn("missing", [], [B, A1])]
     out += [fn("int", [], [A]), fn("float", [], [A]), fn("int", [], [B]), fn("starts_with", [], [A, T("a")]), fn("starts_with", [], [A, B]), fn("starts_with", [], [B, T("1")])]
     out += [["->", ["==", A, T("1")], ["=", ["v", "w"], [], B]], ["=", ["v", "w"], [], A], ["=", ["v", "w"], ["notnone"], ABSENT]]
